@@ -75,5 +75,13 @@ Cfg7 ==
      crit |-> [h \in {"h1", "h2"} |-> IF h = "h1" THEN c1 ELSE FALSE],
      fails |-> f, plan |-> <<"START_ACTIVITY", "STOP_ACTIVITY">>, bodyfails |-> {}, teardown |-> TRUE, quiet |-> q, once |-> {}] :
       c1 \in BOOLEAN, f \in SUBSET {"h1"}, q \in {{}, {2}} }
+\* THREE hooks (run with Hooks = H3): a critical and a non-critical call fail at the same weight of a before_/leave_ moment and a
+\* third hook waits at a later weight of that moment: it must not be started
+Cfg8 ==
+  { [trig |-> [h \in H3 |-> IF h = "h3" THEN M(m, 10) ELSE M(m, 0)],
+     await |-> [h \in H3 |-> IF h = "h3" THEN M(m, 10) ELSE M(m, 0)],
+     crit |-> [h \in H3 |-> IF h = "h1" THEN TRUE ELSE IF h = "h2" THEN FALSE ELSE c3],
+     fails |-> {"h1", "h2"}, plan |-> <<"START_ACTIVITY", "STOP_ACTIVITY">>, bodyfails |-> {}, teardown |-> TRUE, quiet |-> {}, once |-> {}] :
+      m \in {"before_START_ACTIVITY", "leave_CONFIGURED"}, c3 \in BOOLEAN }
 CfgAll == Cfg2Valid \cup Cfg3Valid \cup Cfg4 \cup Cfg5 \cup Cfg6 \cup Cfg7
 =============================================================================
